@@ -136,7 +136,7 @@ def oracle(c, obs):
         actual = len(val) * w
         stated_bits = st * 8 if k == 'bytes' else st
         good = (not c['bad_digit']) and stated_bits == actual and st >= 0 and (allowed_len(k, st) if k in ('hex', 'oct') else True)
-        if k in ('hex', 'oct', 'bin') and val == '' and c['route'] in ('token',): return None   # 'hex:0=' has no value part: parsing question, C05
+        if val == '' and c['route'] in ('token',): return None   # 'hex:0=' has no value part: parsing question, C05
         if good:
             if obs[0] != 'ok' or len(obs[1]) != actual: return f"{k}:{st} with value {val!r} via {c['route']} should succeed with {actual} bits: {str(obs)[:120]}"
             return None
